@@ -28,7 +28,19 @@ theorem prefix_invariant (A : UtxoAlg) (hA : A.Lawful) (cfg : Cfg) (hp : cfg.pru
   rw [r0] at h0
   have hnd : nd0' = nd0 := by injection h0
   subst hnd
-  exact (runOps_spec hA cfg hp ops nd0' g0).1.core.sound k
+  exact ((runOps_spec hA cfg hp ops nd0' g0).1.core.sound k).1
+
+/-- For every workload and EVERY prefix length k: every block of the persisted
+active chain has its spend-journal entry in the image (pruning off) — what a
+reorganisation after the restart needs in order to disconnect it. -/
+theorem prefix_journal (A : UtxoAlg) (hA : A.Lawful) (cfg : Cfg) (hp : cfg.prune = none) (ops : List Op)
+    (nd0 : Node A) (h0 : recover cfg (Image.empty A) = .ok nd0) (k : Nat) :
+    JI (replay (Image.empty A) ((runOps cfg nd0 ops).log.take k)) := by
+  obtain ⟨nd0', r0, g0, _⟩ := recover_empty_spec (A := A) cfg
+  rw [r0] at h0
+  have hnd : nd0' = nd0 := by injection h0
+  subst hnd
+  exact ((runOps_spec hA cfg hp ops nd0' g0).1.core.sound k).2 ji_empty
 
 /-- For every workload and EVERY prefix length `k` of its commit list, reopening
 (with any cache configuration `cfg'`) succeeds and yields a tip that a commit of
